@@ -127,11 +127,12 @@ def rule_a(rep: Report, idx: SourceIndex) -> None:
 		for c_ in later:
 			ok_ = False
 			for t in enclosing_tries(c_, pm_):
-				for h in t.handlers:
-					removes = any(isinstance(x, ast.Call) and isinstance(x.func, ast.Attribute) and x.func.attr in ('unload', 'pop') for x in ast.walk(h)) or any(isinstance(x, ast.Delete) for x in ast.walk(h))
-					reraises = any(isinstance(x, ast.Raise) for x in ast.walk(h))
-					if set(handler_types(h)) & {'Exception', 'BaseException'} and removes and reraises:
-						ok_ = True
+				# every failure path out of the try removes the entry: some handler catches Exception (or broader), and EVERY handler — also a
+				# narrower one listed first, such as `except Errors.Error` — removes and raises
+				broad = any(set(handler_types(h)) & {'Exception', 'BaseException'} or h.type is None for h in t.handlers)
+				each = all((any(isinstance(x, ast.Call) and isinstance(x.func, ast.Attribute) and x.func.attr in ('unload', 'pop') for x in ast.walk(h)) or any(isinstance(x, ast.Delete) for x in ast.walk(h))) and any(isinstance(x, ast.Raise) for x in ast.walk(h)) for h in t.handlers)
+				if broad and each:
+					ok_ = True
 			r.check(ok_, f'Modules.load:rollback:{c_.func.attr}', (mods.relpath, c_.lineno), f'`{unparse(c_)[:70]}` runs after the module was registered in self.__modules and is not inside a try that removes the entry again and re-raises: when it fails (an imported module with an error) the half-loaded module stays registered, the next load returns it without preprocessing, and re-submitting the same source in one session succeeds where the first attempt reported the error', unparse(c_)[:100])
 	# reachability of the owners from Modules.unload
 	mu = mods.cls('Modules').method('unload')
